@@ -55,7 +55,7 @@ pub fn g_list<T>(xs: &[T], f: impl Fn(&T) -> String) -> String {
     s
 }
 pub fn g_nat(n: usize) -> String {
-    format!("{}", n)
+    format!("{}%nat", n)
 }
 pub fn g_natlist(xs: &[usize]) -> String {
     g_list(xs, |x| g_nat(*x))
